@@ -56,4 +56,4 @@ static void tls_harness() {
 extern "C" void hq_tls_k2(void) { tls_harness<2>(); }
 extern "C" void hq_tls_k3(void) { tls_harness<3>(); }
 extern "C" void ht_tls_k4(void) { tls_harness<4>(); }
-extern "C" void ht_tls_k5(void) { tls_harness<5>(); }
+// (K = 5 gave no verdict in 1500 s under the -fno-inline lowering)
